@@ -193,6 +193,9 @@ func (b *Dec3Box) ChannelInfo() (nrChannels int, chanmap uint16) {
 
 	// All Enhanced AC-3 bit streams shall contain an independent substream
 	// assigned substream ID 0 (E.1.3.1.2)
+	if len(b.EC3Subs) == 0 {
+		return 0, 0
+	}
 	substream := b.EC3Subs[0]
 
 	// Get base channel configuration according to acmod
